@@ -176,7 +176,9 @@ fn check(data_in: &[u8], mode: &'static str, note: &str, big_pad: bool, names: &
         })
         .unwrap_or(false);
     let pos0 = stream::gen_initial_pos(&mut c, data.len());
-    let reader = Reader::with(data.clone(), chunks.clone(), intr, vec![]).at_position(pos0);
+    // a fifth of the cases: one transient hard I/O error somewhere; laziness and the allocation bound hold regardless
+    let faults = if c.u8() >= 205 { vec![io::Fault { at: 4 + c.below(60), kind: io::FaultKind::Error, permanent: false, ekind: c.below(8) as u8 }] } else { vec![] };
+    let reader = Reader::with(data.clone(), chunks.clone(), intr, faults).at_position(pos0);
     alloc::open();
     let rs = guard(|| open_stream_as(AnyEndian::Little, reader.clone()));
     let a = alloc::close();
